@@ -18,7 +18,7 @@ META = {
  'C09': dict(files=['C09', 'C09Deps'], partial="the statistical clause (collisions no more frequent than chance among millions of explored positions) is measured by the COLL line, not proved: with 793 keys in GF(2)^64 collisions exist", rule="VAR: every single-component variant of sampled positions; COLL: millions of distinct positions hashed"),
  'C10': dict(files=['C10', 'C10NoPanic', 'C10Full'], rule="GAME programs: random/adversarial action sequences incl. illegal moves, offers by both colours, premature accepts, actions after the end"),
  'C11': dict(files=['C11', 'C11Full'], partial="the refinement to the whole-history specification (C11_can_declare_iff_spec, C11_refines) carries the explicit hypothesis NoCollision: no two different positions of the game share both 64-bit hash and legal-move list (the code identifies positions that way; irreversibility is proved, C11_irreversible_no_recurrence)", rule="GAME programs with long reversible histories, repetitions separated by other moves, rights lost midway, 98..102 reversible half-moves; can_declare_draw after every action"),
- 'C12': dict(files=['C12', 'TextTotal', 'Compose:C12_'] if not os.environ.get('NO_COMPOSE') else ['TextTotal'], rule="every admissible spelling of every legal move of sampled positions (own SAN writer), must-reject spellings, mutated/random/non-ASCII text"),
+ 'C12': dict(files=['C12', 'TextTotal', 'Compose:C12_', 'C12Exec:C12_'] if not os.environ.get('NO_COMPOSE') else ['TextTotal'], rule="every admissible spelling of every legal move of sampled positions (own SAN writer), must-reject spellings, mutated/random/non-ASCII text"),
  'C13': dict(files=['C13'], exhaustive=True, rule="all 20480 move values and 64 squares rendered and parsed back; random, truncated, over-long and multi-byte text"),
  'C14': dict(files=['C14'], rule="GEN programs: mask sequences each drained, len/size_hint before every next, removals beforehand"),
  'C15': dict(files=['C15'], exhaustive=True, rule="every subset of the relevant mask of every (slider, square) x k random fillings, default and +bmi2 build"),
